@@ -77,6 +77,7 @@ RECURSIVE RunPicks(_, _, _, _)
 RunPicks(s, exp, xs, n) ==
     IF Len(s.sel) = n THEN [err |-> "", sel |-> s.sel]
     ELSE IF s.removed >= Len(exp) THEN [err |-> "ErrInvalidSampleSize", sel |-> <<>>]
+    ELSE IF Len(xs) <= Len(s.sel) THEN [err |-> "(fewer hash values than picks)", sel |-> <<>>]   \* never a logged result
     ELSE RunPicks(PickStep(s, exp, xs[Len(s.sel) + 1]), exp, xs, n)
 
 CtorErr(ws) == IF Len(ws) = 0 THEN "ErrNilWeights"
